@@ -426,25 +426,23 @@ Theorem C08_htree_proof_verifies :
 Proof. exact htree_proof_verifies. Qed.
 Print Assumptions C08_htree_proof_verifies.
 
-(* ---- Sync / Close / Open / crash images (model: run2, aht_step2, reopen_at in Merkle/AHT.v; since
-   /repo 09014a8 SetOffset drops what lies behind the offset).  `aht_run2 H ops` = state after ANY
-   history of A2 d (Append) / R2 k (ResetSize) / Reopen2 (Close + Open) / Crash2 c (Close, then Open
-   on a copy whose commit log was cut to c entries, payload and digest logs left longer);
-   `spec_run2 ops` = (payload list, payload list the commit log on disk stands for, append buffered)
-   — a plain list specification: appends extend, a legal reset truncates, a restart returns to what
-   the commit log stands for, which is the current content unless the last effective ResetSize was
-   followed by no append. ---- *)
+(* ---- Sync / Close / Open / crash images (model: run2, sync2, aht_step2, reopen_at in Merkle/AHT.v:
+   SetOffset drops what lies behind the offset (/repo 09014a8), ResetSize cuts the commit log at once
+   (/repo 6a85281), OpenWith re-derives all sizes from the commit log).  `aht_run2 H ops` = state
+   after ANY history of A2 d (Append) / R2 k (ResetSize) / Reopen2 (Close + Open) / Crash2 c (Close,
+   then Open on a copy whose commit log was cut to c entries, payload and digest logs left longer);
+   `strip2 ops` = the same history for a tree that never restarts: Reopen2 dropped, Crash2 c read as
+   ResetSize c. ---- *)
 
-(* A restart when the commit log holds exactly `size` entries gives back the very same state. *)
+(* A restart gives back the very same state. *)
 Theorem C08_aht_reopen_same_state :
   forall (H : bytes -> bytes) (t : aht), Inv H t -> reopen_at t (size t) = Ok t.
 Proof. exact reopen_ok. Qed.
 Print Assumptions C08_aht_reopen_same_state.
 
 (* OpenWith on an image whose payload and digest logs extend beyond what the commit log commits
-   (c <= size entries): all three sizes come from the commit log; the tree is the tree of the first c
-   payloads and satisfies the digest-log invariant, so by C08_aht_append_inv / C08_aht_reset_append
-   the stale tails are overwritten by the next appends and never read. *)
+   (c <= size entries): the tree is the tree of the first c payloads and satisfies the digest-log
+   invariant, so the stale tails are overwritten by the next appends and never read. *)
 Theorem C08_aht_crash_image_is_prefix :
   forall (H : bytes -> bytes) (t : aht) (c : N),
     Inv H t -> c <= size t ->
@@ -453,28 +451,20 @@ Theorem C08_aht_crash_image_is_prefix :
 Proof. exact crash_image_is_prefix. Qed.
 Print Assumptions C08_aht_crash_image_is_prefix.
 
-(* For EVERY history with resets, restarts and crash images the tree holds exactly the specified
-   payload list and is observationally (size, every RootAt, InclusionProof, ConsistencyProof, with
-   their errors) the tree obtained by appending that list to an empty tree. *)
-Theorem C08_aht_run2_observables :
+(* For EVERY history with resets, restarts and crash images — no premise — the tree is, state for
+   state, the tree of the restart-free history: restarts are invisible and a crash image is a rewind.
+   Hence every C08_aht_* theorem (digest-log invariant, RootAt = mth, honest inclusion proofs,
+   consistency completeness, reset_append) applies with `strip2 ops`. *)
+Theorem C08_aht_restarts_invisible :
   forall (H : bytes -> bytes) (ops : list aop2),
-    let t := rtree (aht_run2 H ops) in
-    let L := fst (fst (spec_run2 ops)) in
-    let t0 := aht_run H (map OAppend L) in
-    payloads t = L /\ size t = size t0 /\
-    (forall n, root_at t n = root_at t0 n) /\
-    (forall i j, inclusion_proof t i j = inclusion_proof t0 i j) /\
-    (forall i j, consistency_proof t i j = consistency_proof t0 i j).
-Proof. exact aht_run2_observables. Qed.
-Print Assumptions C08_aht_run2_observables.
+    rtree (aht_run2 H ops) = aht_run H (strip2 ops).
+Proof. exact (fun H ops => proj2 (aht_run2_is_run H ops)). Qed.
+Print Assumptions C08_aht_restarts_invisible.
 
-(* RESIDUAL, refuted for every hash function (known finding "ahtree bare rewind not durable"):
-   a restart is NOT always invisible — after append x5, ResetSize(2) a Close + Open changes the size
-   (back to 5): ResetSize does not cut the commit-log file, only the sync of a later append does.
-   The resurrected tree is the consistent pre-rewind tree (C08_aht_run2_observables covers it). *)
-Theorem C08_aht_bare_rewind_not_durable_refuted :
-  exists ops : list aop2,
-    forall H : bytes -> bytes,
-      size (rtree (aht_run2 H (ops ++ [Reopen2]))) <> size (rtree (aht_run2 H ops)).
-Proof. exact aht_bare_rewind_not_durable_refuted. Qed.
-Print Assumptions C08_aht_bare_rewind_not_durable_refuted.
+(* In particular Close + Open never changes the tree, whatever happened before (also right after a
+   ResetSize; before /repo 6a85281 resp. 09014a8 that was refuted: the rewind was lost). *)
+Theorem C08_aht_restart_changes_nothing :
+  forall (H : bytes -> bytes) (ops : list aop2),
+    rtree (aht_run2 H (ops ++ [Reopen2])) = rtree (aht_run2 H ops).
+Proof. exact restart_invisible. Qed.
+Print Assumptions C08_aht_restart_changes_nothing.
